@@ -128,11 +128,11 @@ def parse (s : St) (line : String) : Except String (Option Op) :=
     match idNat 'f' f, idNat 'u' u with
     | some k, some u =>
       let (p, bits) := prioOf fl
-      -- fd sources accept no priority or HIGH only (parameter guard), and are forced HIGH
+      -- fd sources accept no priority or HIGH only (parameter guard); the model forces HIGH (`forceHigh`)
       let ok := p.isNone || (bits == 1 && p == some .high)
       -- the regular files of the pool are only offered to RUNNING modules (both sides refuse the line otherwise)
       if k ≥ 6 && !stateIs s m .running then .error "bad-op" else
-      pure (some (.regSrc m ok { kind := .fd, owner := m, key := k, prio := .high, oneshot := fl.contains 'o',
+      pure (some (.regSrc m ok { kind := .fd, owner := m, key := k, prio := p.getD .norm, oneshot := fl.contains 'o',
                                  autoclose := fl.contains 'a', dup := fl.contains 'd', userptr := u } bits))
     | _, _ => .error "bad-op"
   | ["dereg_fd", h, f] => do
